@@ -5,6 +5,7 @@ A spec is a JSON dict:
 The reference model (refmodel.py) consumes the same dict, the builder turns it into a real
 pyPRISM.System through the public API only.
 """
+import copy
 import itertools
 
 import numpy as np
@@ -76,34 +77,34 @@ def mk_om(spec):
     raise KeyError(t)
 
 
-def build(sp, omit=()):
+def build(sp, omit=(), labels=None, originals=None):
     """real System from a spec; `omit` lists items to leave unspecified
-    ('domain', 'rho:A', 'd:A', 'pot:A|B', 'clo:A|B', 'om:A|B')"""
+    ('domain', 'rho:A', 'd:A', 'pot:A|B', 'clo:A|B', 'om:A|B'); `labels` maps the spec's type names to the labels used in the
+    real System (any hashable: other strings, integers); `originals` (a list) collects the potential/closure/omega objects the
+    user handed to the tables (the tables store copies)"""
+    lab = (lambda t: t) if labels is None else (lambda t: labels[t])
+    types = [lab(t) for t in sp['types']]
     if sp.get('kT_via') == 'assign':
         # the temperature is assigned after construction, as a temperature sweep on one System does
-        s = pyPRISM.System(list(sp['types']))
+        s = pyPRISM.System(types)
         s.kT = sp['kT']
     else:
-        s = pyPRISM.System(list(sp['types']), kT=sp['kT'])
+        s = pyPRISM.System(types, kT=sp['kT'])
     if 'domain' not in omit:
         s.domain = make_domain(sp)
     for t in sp['types']:
         if 'rho:' + t not in omit:
-            s.density[t] = sp['rho'][t]
+            s.density[lab(t)] = sp['rho'][t]
         if 'd:' + t not in omit:
-            s.diameter[t] = sp['d'][t]
-    for key, ps in sp['pot'].items():
-        if 'pot:' + key not in omit:
-            a, b = key.split('|')
-            s.potential[a, b] = mk_pot(ps)
-    for key, cs in sp['clo'].items():
-        if 'clo:' + key not in omit:
-            a, b = key.split('|')
-            s.closure[a, b] = mk_clo(cs)
-    for key, os_ in sp['om'].items():
-        if 'om:' + key not in omit:
-            a, b = key.split('|')
-            s.omega[a, b] = mk_om(os_)
+            s.diameter[lab(t)] = sp['d'][t]
+    for name, table, mk in (('pot', s.potential, mk_pot), ('clo', s.closure, mk_clo), ('om', s.omega, mk_om)):
+        for key, spec in sp[name].items():
+            if '%s:%s' % (name, key) not in omit:
+                a, b = key.split('|')
+                obj = mk(spec)
+                if originals is not None:
+                    originals.append(obj)
+                table[lab(a), lab(b)] = obj
     return s
 
 
@@ -112,7 +113,7 @@ def make_domain(sp):
     'dr' (default) constructor with dr | 'dk' constructor with the conjugate dk | 'setters' another domain re-configured
     through the length and dr setters | 'setters_dk' re-configured through dk then length"""
     via = sp.get('via', 'dr')
-    L, dr = int(sp['L']), float(sp['dr'])
+    L, dr = int(sp['L']), (sp['dr'] if isinstance(sp['dr'], int) else float(sp['dr']))     # a Python int spacing gives an integer grid
     if via == 'dk':
         return pyPRISM.Domain(length=L, dk=np.pi / (dr * L))
     if via == 'setters':
@@ -193,6 +194,8 @@ def gen_spec(rng, rank=None, fam=None, lengths=LENGTHS, drs=DRS, closures=('PY',
     w = rng.dirichlet(np.ones(rank))
     rho = {t: float(6 * eta * wi / np.pi / d[t] ** 3) for t, wi in zip(types, w)}
     kT = float(rng.choice([0.6, 1.0, 1.0, 2.0, 5.0]))
+    if kT in (1.0, 2.0, 5.0) and rng.random() < 0.3:
+        kT = int(kT)                 # users write kT=2, not kT=2.0
     pot, clo, om = {}, {}, {}
     for (i, j), (a, b) in pairs(types):
         sig = (d[a] + d[b]) / 2
@@ -216,7 +219,9 @@ def easy_spec(rng, rank=2, L=128, dr=0.1, eta_max=0.25):
     eta = float(rng.uniform(0.02, eta_max))
     w = rng.dirichlet(np.ones(rank) * 3)
     rho = {t: float(6 * eta * wi / np.pi / d[t] ** 3) for t, wi in zip(types, w)}
-    kT = float(rng.choice([0.8, 1.0, 1.5, 2.5]))
+    kT = float(rng.choice([0.8, 1.0, 1.5, 2.5, 2.0]))
+    if kT in (1.0, 2.0) and rng.random() < 0.4:
+        kT = int(kT)
     pot, clo, om = {}, {}, {}
     for (i, j), (a, b) in pairs(types):
         sig = (d[a] + d[b]) / 2
@@ -230,6 +235,27 @@ def easy_spec(rng, rank=2, L=128, dr=0.1, eta_max=0.25):
     for (i, j), (a, b) in pairs(types, diagonal=False):
         om[pk(a, b)] = {'t': 'NI'}
     return dict(types=types, dr=dr, L=L, d=d, rho=rho, kT=kT, pot=pot, clo=clo, om=om, fam='easy', eta=eta)
+
+
+def integer_grid(sp, factor=None):
+    """the same physical system in units in which the grid spacing is the Python integer 1 (np.arange then yields an
+    INTEGER real-space grid): all lengths x 1/dr, densities x dr^3"""
+    f = 1.0 / sp['dr']
+    out = copy.deepcopy(sp)
+    out['dr'] = 1
+    out['d'] = {t: float(round(v * f, 8)) for t, v in sp['d'].items()}
+    out['rho'] = {t: v / f ** 3 for t, v in sp['rho'].items()}
+    for ps in out['pot'].values():
+        for k in ('sigma', 'rcut', 'alpha'):
+            if ps.get(k) is not None:
+                ps[k] = float(round(ps[k] * f, 8)) if k != 'alpha' else ps[k] * f
+    for os_ in out['om'].values():
+        if 's' in os_:
+            os_['s'] = float(round(os_['s'] * f, 8))
+        if os_['t'] == 'ARR':
+            os_['w'] = None          # tabulated on the old k grid: caller must regenerate
+    out['via'] = 'dr'
+    return out
 
 
 def hostile_edits(s, rng):
